@@ -43,6 +43,7 @@ type recipe struct {
 	arena    bool  // messages are consecutive sub-slices of one buffer (cap reaches into the next message)
 	sigArena bool
 	batch    []int // per batch list: 0 all valid, 1 wrong message, 2 identity key, 3.. wrong-length signature (0,47,49)
+	ecdsaFromSK [2]bool // the ECDSA public key object comes from sk.PublicKey() (called once during set-up), not from a decoder
 }
 
 type batchList struct {
@@ -73,6 +74,10 @@ type world struct {
 	spock     []crypto.Signature
 	batches   []batchList
 	mixedKeys []crypto.PublicKey // the BLS keys with one ECDSA key among them (error paths)
+	aggKeys2  []crypto.PublicKey // a second committee (all keys but the last) and its multi-signature
+	aggSig2   crypto.Signature
+	sigTable  []crypto.Signature // shared list for AggregateBLSSignatures: an identity signature before genuine ones
+	sigTableAgg crypto.Signature
 	// ECDSA
 	esk  [2]crypto.PrivateKey
 	epk  [2]crypto.PublicKey
@@ -108,6 +113,7 @@ func drawRecipe(c *choice.Src) recipe {
 	}
 	rc.arena = c.Bool(1, 2, "msg.arena")
 	rc.sigArena = c.Bool(1, 2, "sig.arena")
+	rc.ecdsaFromSK = [2]bool{c.Bool(1, 2, "ecdsa.pk.fromsk.p256"), c.Bool(1, 2, "ecdsa.pk.fromsk.k1")}
 	nb := 1 + c.Choose(3, "nbatch")
 	for i := 0; i < nb; i++ {
 		rc.batch = append(rc.batch, c.Choose(6, "batch.kind"))
@@ -237,6 +243,16 @@ func build(rc recipe, mat *material) (w *world, err error) {
 	must(err)
 	w.manySig, err = crypto.AggregateBLSSignatures(many)
 	must(err)
+	// a second committee for the one-message verification, and a shared signature table for
+	// AggregateBLSSignatures with the identity signature ahead of genuine ones
+	w.aggKeys2 = append([]crypto.PublicKey(nil), w.pks[:nkeys-1]...)
+	w.aggSig2, err = crypto.AggregateBLSSignatures(one[:nkeys-1])
+	must(err)
+	idSig := make([]byte, 48)
+	idSig[0] = 0xC0
+	w.sigTable = append([]crypto.Signature{w.sigs[0][0], crypto.Signature(idSig)}, one[1:]...)
+	w.sigTableAgg, err = crypto.AggregateBLSSignatures(cpSigs(w.sigTable))
+	must(err)
 	// batch-verification lists (shared objects: the same list is handed to every call)
 	for bi, kind := range rc.batch {
 		bl := batchList{pks: append([]crypto.PublicKey(nil), w.pks...)}
@@ -265,6 +281,13 @@ func build(rc recipe, mat *material) (w *world, err error) {
 		must(err)
 		pk, err := crypto.DecodePublicKey(alg, sk.PublicKey().Encode())
 		must(err)
+		if rc.ecdsaFromSK[k] {
+			// the object PrivateKey.PublicKey() hands out (the lazily cached getter itself is not
+			// in the property's list and is called here, once, sequentially)
+			sk2, err := crypto.DecodePrivateKey(alg, mat.ecdsaSK[k])
+			must(err)
+			pk = sk2.PublicKey()
+		}
 		w.esk[k], w.epk[k] = sk, pk
 		if first {
 			for _, m := range mat.msgs {
@@ -308,7 +331,15 @@ func newMaterial(rc recipe, rnd *choice.Src) (mat *material, err error) {
 
 func cp(b []byte) []byte { return append(make([]byte, 0, len(b)), b...) }
 
-var opNames = []string{"kmac.ComputeHash", "bls.Sign", "bls.Verify", "bls.VerifyWrong", "BLSVerifyPOP", "SPOCKVerify", "VerifyOneMessage", "VerifyManyMessages", "BatchVerify", "ecdsa.Sign", "ecdsa.Verify", "blshasher.ComputeHash", "SPOCKVerifyAgainstData", "errorpath"}
+func cpSigs(l []crypto.Signature) []crypto.Signature {
+	o := make([]crypto.Signature, len(l))
+	for i := range l {
+		o[i] = cp(l[i])
+	}
+	return o
+}
+
+var opNames = []string{"kmac.ComputeHash", "bls.Sign", "bls.Verify", "bls.VerifyWrong", "BLSVerifyPOP", "SPOCKVerify", "VerifyOneMessage", "VerifyManyMessages", "BatchVerify", "ecdsa.Sign", "ecdsa.Verify", "blshasher.ComputeHash", "SPOCKVerifyAgainstData", "errorpath", "AggregateSignatures"}
 
 // exec performs an operation and returns a canonical result string. Deterministic operations
 // return their bytes; ECDSA Sign (randomised) is checked by verification.
@@ -344,8 +375,17 @@ func (w *world) exec(o op, own hash.Hasher) (res string) {
 		ok, err := crypto.SPOCKVerifyAgainstData(w.pks[ka], w.spock[ka], w.msgs[o.b%2], w.kmac)
 		return fmt.Sprint(ok, err)
 	case "VerifyOneMessage":
+		if o.b%3 == 2 { // another committee: a memo of "the last key list" must not leak between callers
+			ok, err := crypto.VerifyBLSSignatureOneMessage(w.aggKeys2, w.aggSig2, w.msgs[o.a%2], w.kmac)
+			return fmt.Sprint("committee2 ", ok, err)
+		}
 		ok, err := crypto.VerifyBLSSignatureOneMessage(w.aggKeys, w.aggSig, w.msgs[o.a%2], w.kmac)
 		return fmt.Sprint(ok, err)
+	case "AggregateSignatures":
+		// not in the property's list by name, but what aggregate verification is built on: a pure
+		// function of a list that other tasks read at the same time
+		s, err := crypto.AggregateBLSSignatures(w.sigTable)
+		return fmt.Sprintf("%x %v", []byte(s), err)
 	case "VerifyManyMessages":
 		ok, err := crypto.VerifyBLSSignatureManyMessages(w.manyKeys, w.manySig, w.manyMsgs, w.manyHs)
 		return fmt.Sprint(ok, err)
@@ -420,6 +460,13 @@ func (w *world) snapshot() string {
 	}
 	for _, m := range w.manyMsgs {
 		wr(m)
+	}
+	wr(w.aggSig2)
+	for _, k := range w.aggKeys2 {
+		wr(k.Encode())
+	}
+	for _, sg := range w.sigTable {
+		wr(sg)
 	}
 	for _, bl := range w.batches {
 		for i := range bl.sigs {
